@@ -1,0 +1,15 @@
+//go:build verif
+// +build verif
+
+package planner
+
+import (
+	"github.com/getlantern/zenodb/core"
+	"github.com/getlantern/zenodb/sql"
+)
+
+// VerifAddOrderLimitOffset exposes addOrderLimitOffset to the verification
+// harness (build tag verif only).
+func VerifAddOrderLimitOffset(flat core.FlatRowSource, query *sql.Query) core.FlatRowSource {
+	return addOrderLimitOffset(flat, query)
+}
